@@ -341,7 +341,9 @@ def prune_non_float_tensors(graph: Graph) -> Graph:
 
     graph = deepcopy(graph)
     for n in graph.nodes:
-        if n.name == "output":
+        # (the output node is not always *named* "output": a traced variable of that
+        # name takes it, and the output node becomes e.g. "output_1")
+        if n.op == "output":
             continue
 
         if not n.meta.get("outputs_float_tensor", False):
@@ -391,7 +393,7 @@ def prune_same_scale_tensors(graph: Graph, rtol: float = 2**-16) -> Graph:
     """
     graph = deepcopy(graph)
     for n in graph.nodes:
-        if n.name == "output" or not n.meta.get("outputs_float_tensor", False):
+        if n.op == "output" or not n.meta.get("outputs_float_tensor", False):
             continue
 
         float_tensor_args = _filter_float_tensors(n.args)
